@@ -153,11 +153,18 @@ Section Heap.
         end
     end.
 
-  (* returns the new heap and the address of the returned tensor *)
-  Definition gibbs_call (skip : nat) (overwrite : bool) (k : nat) (hp : heap) (src : nat)
+  (* returns the new heap and the address of the returned tensor.
+     v = (initial_state if overwrite else initial_state.clone()).to(self.weights):
+     [.to] returns its argument when the start tensor already has the parameters' dtype (and device)
+     and otherwise a converted COPY ([same_dtype] = false); the loop updates v in place; afterwards
+       if overwrite and v is not initial_state: initial_state.copy_(v)
+     writes the result back into the caller's tensor; v is returned. *)
+  Definition gibbs_call (skip : nat) (overwrite same_dtype : bool) (k : nat) (hp : heap) (src : nat)
              (draws : list bits) : heap * nat :=
-    let (hp1, dst) := if overwrite then (hp, src) else hclone hp src in
-    (run_in_place skip k hp1 dst draws, dst).
+    let (hp1, dst) := if overwrite && same_dtype then (hp, src) else hclone hp src in
+    let hp2 := run_in_place skip k hp1 dst draws in
+    let hp3 := if overwrite && negb same_dtype then hwrite hp2 src (hread hp2 dst) else hp2 in
+    (hp3, dst).
   Definition b_gibbs_call := gibbs_call 1.
   Definition p_gibbs_call := gibbs_call 2.
 End Heap.
